@@ -132,6 +132,16 @@ theorem valid_accepted_of (c : Cfg) (t : Topo)
   · have := hk.forbidden p hp
     simp [nodeSees, this]
 
+/-- Validation never crashes on a well-formed table: if every property the service rows name is
+readable, no row limits instances (the shipped situation) and every element's type has a row, then
+every failure is a `TopologyException`. -/
+theorem validate_rejects_with_topology_of (c : Cfg) (t : Topo) (e : Err)
+    (hg : ∀ kr ∈ c.svc, ∀ p ∈ kr.2.req ++ kr.2.forb, p ∈ c.svcGetters)
+    (h0 : ∀ kr ∈ c.svc, kr.2.numInst = 0)
+    (hn : ∀ n ∈ t.nodes, (c.node.lookup n.ty).isSome) (hs : ∀ s ∈ t.svcs, (c.svc.lookup s.ty).isSome)
+    (h : (validate c t).1 = .error e) : e = .topology :=
+  validate_error c t e hg h0 hn hs h
+
 /-! ### connecting an interface -/
 
 theorem guardrails_refuses_iff (c : Cfg) (ty kind : String) :
@@ -230,6 +240,25 @@ theorem gen_instances_void (svcs : List Svc) : InstOK genCfg svcs := by
       obtain ⟨kr, hkr, rfl⟩ := lookup_mem genCfg.svc ty row hl
       exact gen_no_instance_limit kr hkr
   exact ⟨fun s _ h => absurd (h0 s.ty) h, fun s _ h => absurd (h0 s.ty) h⟩
+
+/-- For the shipped table the instance clause is void: `validate` succeeds exactly when every visible
+node and every service meets its row. -/
+theorem validate_iff_spec_gen (t : Topo) : (validate genCfg t).1 = .ok () ↔
+    (∀ n ∈ t.nodes, n.ty ∉ genCfg.nodesViewExcludes → ∃ row, genCfg.node.lookup n.ty = some row ∧ NodeOK genCfg row n) ∧
+    (∀ s ∈ t.svcs, ∃ row, genCfg.svc.lookup s.ty = some row ∧ SvcOK genCfg t.exp row s) := by
+  rw [validate_iff_spec]
+  exact ⟨fun h => ⟨h.nodes, h.svcs⟩, fun h => ⟨h.1, h.2, gen_instances_void _⟩⟩
+
+/-- A slice over the library's node and service types is accepted or rejected with
+`TopologyException`; validation does not crash (shipped table). -/
+theorem validate_rejects_with_topology (t : Topo) (e : Err)
+    (hn : ∀ n ∈ t.nodes, n.ty ∈ Gen.Constraints.nodeTypes) (hs : ∀ s ∈ t.svcs, s.ty ∈ Gen.Constraints.serviceTypes)
+    (h : (validate genCfg t).1 = .error e) : e = .topology := by
+  have h1 : ∀ ty ∈ Gen.Constraints.nodeTypes, (genCfg.node.lookup ty).isSome = true := by decide
+  have h2 : ∀ ty ∈ Gen.Constraints.serviceTypes, (genCfg.svc.lookup ty).isSome = true := by decide
+  exact validate_rejects_with_topology_of genCfg t e
+    (fun kr hkr p hp => (gen_service_properties_readable kr hkr p hp).1) gen_no_instance_limit
+    (fun n hn' => h1 n.ty (hn n hn')) (fun s hs' => h2 s.ty (hs s hs')) h
 
 /-- No valid slice is rejected (shipped table). -/
 theorem valid_accepted (t : Topo) (h : SpecFull genCfg t) : (validate genCfg t).1 = .ok () :=
